@@ -242,10 +242,10 @@ def _shapes(v1=False, seed=7):
     return out
 
 
-def make_device(shape, seed=11, also=()):
+def make_device(shape, seed=11, also=(), platform="ledger"):
     rng = random.Random(seed)
     fw_hash_ids = [0x01, 0x02, 0x03, 0x05, 0x81, 0x82, 0x84]
-    cfg = dict(platform="ledger", mode=MODE_SIGNER,
+    cfg = dict(platform=platform, mode=MODE_SIGNER,
                pubkeys={path_to_binary(p): rng.randbytes(65) for p in ALL_PATHS},
                state={"hashes": {h: rng.randbytes(32) for h in fw_hash_ids},
                       "difficulty": rng.getrandbits(200), "flags": (1, 0, 1)},
